@@ -268,7 +268,7 @@ def main(chk):
     def one(k):
         rnd = env.rng('c04', k)
         m, entries, probes, slots, sigs, goff = build(rnd, k)
-        b = m.encode()
+        b = m.encode(wasm.rot_enc(k))
         plan = e2e.Plan(m, import_inits={('env', 'tbase'): goff or 0})
         lines = ['I 0', 'T 0 0']
         nvec = 4
